@@ -214,3 +214,30 @@ def group_operations_closed(env, cfg, ck):
     Mi = ck.call(XY.inv)
     for i in range(2):
         check_member(ck, np, 'seq-inv[%d]' % i, Mi.A[i], cls)
+
+
+@contract('C01', targets=[Q + 'slerp', T3 + 'trinterp', 'spatialmath.super_pose.SMPose.interp'], configs=product(shortest=[False, True]),
+          assumptions=['callee contract of base.r2q (C04) inside trinterp'])
+def interpolation_closed(env, cfg, ck):
+    """interpolated values are valid members for every s in [0, 1]: slerp returns a unit quaternion, trinterp a valid
+    rigid motion (any pair of end points, either arc)"""
+    from contracts.c11_interpolation import relative, _R2QStub
+    b, np = env.base, env.np
+    q0 = env.unitvec('q', 4)
+    phi, c, s_, n = relative(env, wide=not cfg['shortest'])
+    r = [c, s_ * n[0], s_ * n[1], s_ * n[2]]
+    q1 = A.hamilton(np, q0, r)
+    s = env.real('s', 0, 1, 'unit')
+    for nm, end in (('near', q1), ('far', -q1)):
+        if nm == 'far' and not cfg['shortest']:
+            continue            # the far representative with shortest=False is the long arc: covered by phi up to pi - 1e-6
+        check_unit_quat(ck, np, 'slerp:' + nm, ck.call(b.slerp, q0, end, s, shortest=cfg['shortest']))
+    if not cfg['shortest']:
+        R0, R1 = A.quat_to_R(np, q0), A.quat_to_R(np, q1)
+        t0, t1 = env.reals('u', 3), env.reals('t', 3)
+        stub = _R2QStub(np)
+        stub.register(R0, q0)
+        stub.register(R1, q1)
+        with ck.stub(b, 'r2q', stub):
+            M = ck.call(b.trinterp, A.homog(np, R0, t0), A.homog(np, R1, t1), s)
+        check_SE(ck, np, 'trinterp', M, 3)
